@@ -170,7 +170,7 @@ std::string form_serialize(const std::vector<std::pair<std::string, std::string>
 // reset: edge_counts[from_state][to_state] (indices are State values; the
 // diagonal counts steps that stay in the same state; to_state may be the
 // pseudo-states Return / Failure).
-extern uint64_t edge_counts[32][32];
+extern thread_local uint64_t edge_counts[32][32];
 void reset_edge_counts();
 
 }  // namespace refurl
